@@ -111,6 +111,12 @@ def _(g):
 def _(a):
     return lin(a.result) == ev(a.e)
 
+@cne.ensures("a literal maps to the constant pseudo-variable only")
+def _(a):
+    if isinstance(a.e, LoopIR.Const):
+        return And(list(a.result.keys()) == [CSYM], a.result[CSYM] == a.e.val)
+    return True
+
 @cne.ensures("coefficient map is never empty")
 def _(a):
     return len(a.result) >= 1
@@ -119,6 +125,8 @@ cne.raises(AssertionError, when=lambda a: isinstance(a.e, LoopIR.BinOp) and a.e.
            label="AssertionError only for a non-affine product")
 
 def _ne_result(g, a):
+    if isinstance(a.e, LoopIR.Const):
+        return {CSYM: a.e.val}
     keys = (CSYM, X, Y) if getattr(a.e, "_pyvc_name", "") in ("lhs", "arg", "e") else (CSYM, X, Z)
     return g_map(g, "m_" + getattr(a.e, "_pyvc_name", "e"), keys)
 
@@ -149,7 +157,16 @@ cgn.outer_inputs = _outer_index_start
 
 @cgn.inputs
 def _(g):
+    if g.choose(["any", "literal"], "e") == "literal":
+        return {"e": LoopIR.Const(g.int("lit"), T.int, SRC)}
     return {"e": opaque_expr(g, "e", not_ctors=())}
+
+@cgn.ensures("a literal normalises to itself with no variable terms")
+def _(a):
+    if isinstance(a.e, LoopIR.Const):
+        c, l = a.result
+        return And(len(l) == 0, c.val == a.e.val)
+    return True
 
 @cgn.ensures("constant plus scaled variables denotes the expression")
 def _(a):
@@ -186,7 +203,7 @@ def _gl_result(g, a):
         return a.constant
     return opaque_expr(g, "gen", not_ctors=(LoopIR.Const,))
 
-GL_CALLEE = dict(result=_gl_result,
+GL_CALLEE = dict(result=lambda g, a: _gl_result2(g, a),
                  ensures=lambda a: ev(a.result) == ev(a.constant) + lin_list(a.normalization_list),
                  assumed=False, note="proved contract of generate_loopIR")
 
@@ -207,6 +224,8 @@ def _coef(g, name):
 
 
 def _gn_result(g, a):
+    if isinstance(a.e, LoopIR.Const):
+        return (LoopIR.Const(a.e.val, T.int, SRC), [])
     n = g.choose([0, 1, 2], "gn.len")
     syms = (X, Y)
     res = (LoopIR.Const(_coef(g, "gn_c"), T.int, SRC),
@@ -328,3 +347,368 @@ cms.callee("_DoNormalize.index_start.get_normalized_expr", **GN_CALLEE)
 cms.callee("_DoNormalize.index_start.generate_loopIR", **GL_CALLEE)
 cms.callee("IndexRangeEnvironment.check_expr_bounds", **CEBS_CALLEE)
 cms.callee("IndexRangeEnvironment.check_expr_bound", **CEB_CALLEE)
+
+
+# ----------------------------------------------------------------------------
+# division_simplification: extra clause used by its callers
+
+@cds.ensures("a result that is still a division keeps the same literal divisor")
+def _(a):
+    r = a.result
+    if isinstance(r, LoopIR.BinOp) and r.op == "/":
+        return And(isinstance(r.rhs, LoopIR.Const), r.rhs.val == a.e.rhs.val)
+    return True
+
+
+def _gl_result2(g, a):
+    """generate_loopIR returns its `constant` for an empty list, otherwise a
+    chain of + / - nodes (never a division)."""
+    if len(a.normalization_list) == 0:
+        return a.constant
+    op = g.choose(["+", "-"], "gen.op")
+    return LoopIR.BinOp(op, opaque_expr(g, "gen_l", not_ctors=()),
+                        opaque_expr(g, "gen_r", not_ctors=()), T.index, SRC)
+
+@cgl.ensures("result is the given constant or a +/- node (never a division)")
+def _(a):
+    r = a.result
+    if len(a.normalization_list) == 0:
+        return r is a.constant
+    return isinstance(r, LoopIR.BinOp) and r.op in ("+", "-")
+
+
+def _ds_result(g, a):
+    k = g.choose(["still_division", "plus_minus", "const"], "ds")
+    if k == "still_division":
+        return LoopIR.BinOp("/", opaque_expr(g, "ds_num", not_ctors=()), a.e.rhs, T.index, SRC)
+    if k == "const":
+        return LoopIR.Const(g.int("ds_c"), T.int, SRC)
+    return LoopIR.BinOp(g.choose(["+", "-"], "ds.op"), opaque_expr(g, "ds_l", not_ctors=()),
+                        opaque_expr(g, "ds_r", not_ctors=()), T.index, SRC)
+
+DS_CALLEE = dict(result=_ds_result, ensures=lambda a: ev(a.result) == ev(a.e),
+                 requires=lambda a: And(isinstance(a.e.rhs, LoopIR.Const), a.e.rhs.val > 0),
+                 assumed=False, note="proved contract of division_simplification")
+
+@cds.ensures("result is a division by the same literal, a literal, or a +/- node")
+def _(a):
+    r = a.result
+    return (isinstance(r, LoopIR.Const)
+            or (isinstance(r, LoopIR.BinOp) and r.op in ("+", "-", "/")))
+
+
+# division_simplification_and_try_spliting_denominator
+csd = contract("C12", F, "_DoNormalize.index_start.division_simplification_and_try_spliting_denominator")
+csd.outer_inputs = _outer_index_start
+
+@csd.inputs
+def _(g):
+    return {"e": g_divmod_expr(g, "/")}
+
+@csd.ensures("result has the value of the floor division")
+def _(a):
+    return ev(a.result) == ev(a.e)
+
+csd.callee("_DoNormalize.index_start.division_simplification", **DS_CALLEE)
+# while divisor * divisor <= d: every exit from inside the loop is checked
+# against the postcondition; the invariant only has to keep `divisor` positive
+csd.loop("_DoNormalize.index_start.division_simplification_and_try_spliting_denominator", 0,
+         invariant=lambda env: env.divisor >= 2,
+         havoc={"divisor": lambda g: g.int("divisor")})
+
+
+# division_denominator_simplification: (n / c1) / c2 == n / (c1*c2)
+cdd = contract("C12", F, "_DoNormalize.index_start.division_denominator_simplification")
+cdd.outer_inputs = _outer_index_start
+
+@cdd.inputs
+def _(g):
+    depth = g.choose([1, 2, 3, 4], "nest")
+    e = opaque_expr(g, "n", not_ctors=(LoopIR.BinOp,))
+    for i in range(depth):
+        e = LoopIR.BinOp("/", e, LoopIR.Const(g.pos(f"c{i}"), T.int, SRC), T.index, SRC)
+    return {"e": e}
+
+@cdd.ensures("collapsed denominators give the same floor quotient")
+def _(a):
+    # explicit witness chain: n/c0/c1 == n/(c0*c1) step by step
+    return ev(a.result) == ev(a.e)
+
+cdd.note("nest depth of literal denominators enumerated 1..4 (values symbolic)")
+
+
+# index_start: dispatch + structural induction
+cis = contract("C12", F, "_DoNormalize.index_start")
+
+def g_is_expr(g):
+    k = g.choose(["Read", "Const", "USub", "BinOp+", "BinOp-", "BinOp*", "BinOp/", "BinOp%"], "expr")
+    if k == "Read":
+        return LoopIR.Read(X, [], T.index, SRC)
+    if k == "Const":
+        return LoopIR.Const(g.int("c"), T.int, SRC)
+    if k == "USub":
+        return LoopIR.USub(opaque_expr(g, "arg", not_ctors=()), T.index, SRC)
+    op = k[5:]
+    if op in ("/", "%"):
+        return g_divmod_expr(g, op)
+    return LoopIR.BinOp(op, opaque_expr(g, "lhs", not_ctors=()),
+                        opaque_expr(g, "rhs", not_ctors=()), T.index, SRC)
+
+@cis.inputs
+def _(g):
+    return {"self": mk_norm(g), "e": g_is_expr(g)}
+
+@cis.requires
+def _(a):
+    return env_sound(dict(a.self.env.env))
+
+@cis.ensures("normalised expression has the same value")
+def _(a):
+    return ev(a.result) == ev(a.e)
+
+@cis.ensures("a literal stays the same literal")
+def _(a):
+    if isinstance(a.e, LoopIR.Const):
+        if not isinstance(a.result, LoopIR.Const):
+            return False
+        return a.result.val == a.e.val
+    return True
+
+def _is_result(g, a):
+    if isinstance(a.e, LoopIR.Const):
+        return LoopIR.Const(a.e.val, T.int, SRC)
+    return opaque_expr(g, "is_" + getattr(a.e, "_pyvc_name", "e"), not_ctors=(LoopIR.Const,))
+
+IS_CALLEE = dict(result=_is_result, ensures=lambda a: ev(a.result) == ev(a.e), assumed=False,
+                 note="induction hypothesis of index_start")
+cis.callee("_DoNormalize.index_start", **IS_CALLEE)
+cis.callee("_DoNormalize.has_div_mod_config", result=lambda g, a: g.bool("has_div_mod"),
+           assumed=False, note="pure predicate; both answers must be sound for the caller")
+cis.callee("_DoNormalize.index_start.get_normalized_expr", **GN_CALLEE)
+cis.callee("_DoNormalize.index_start.generate_loopIR", **GL_CALLEE)
+_EV_SAME = dict(result=lambda g, a: opaque_expr(g, "simp", not_ctors=()),
+                ensures=lambda a: ev(a.result) == ev(a.e), assumed=False,
+                requires=lambda a: And(isinstance(a.e.rhs, LoopIR.Const), a.e.rhs.val > 0),
+                note="proved above")
+cis.callee("_DoNormalize.index_start.division_simplification_and_try_spliting_denominator", **_EV_SAME)
+cis.callee("_DoNormalize.index_start.division_denominator_simplification", **_EV_SAME)
+cis.callee("_DoNormalize.index_start.modulo_simplification", **_EV_SAME)
+cis.raises(AssertionError, when=lambda a: False, label="no assertion failure on well-typed input")
+
+
+# ----------------------------------------------------------------------------
+# DoSimplify
+
+def mk_simp(g):
+    o = object.__new__(LS.DoSimplify)
+    o.facts = ChainMap()
+    return o
+
+ARITH = ["+", "-", "*", "/", "%"]
+CMP = ["<", ">", "<=", ">=", "=="]
+LOGIC = ["and", "or"]
+
+ccf = contract("C12", F, "DoSimplify.cfold")
+
+@ccf.inputs
+def _(g):
+    op = g.choose(ARITH + CMP + LOGIC, "op")
+    if op in LOGIC:
+        l, r = LoopIR.Const(g.bool("l"), T.bool, SRC), LoopIR.Const(g.bool("r"), T.bool, SRC)
+    else:
+        l, r = LoopIR.Const(g.int("l"), T.int, SRC), LoopIR.Const(g.int("r"), T.int, SRC)
+    return {"self": mk_simp(g), "op": op, "lhs": l, "rhs": r}
+
+@ccf.requires
+def _(a):
+    # divisor / modulus is a positive literal (front-end rule, see C03)
+    return a.rhs.val > 0 if a.op in ("/", "%") else True
+
+@ccf.ensures("folded constant is the value of the operation")
+def _(a):
+    from contracts.ghost import ev_binop
+    want = ev_binop(a.op, a.lhs.val, a.rhs.val)
+    if a.op in LOGIC or a.op in CMP:
+        return S.Iff(a.result, want)
+    return a.result == want
+
+
+# map_binop: algebraic rules
+cmb = contract("C12", F, "DoSimplify.map_binop")
+
+def g_operand(g, name, other=None):
+    """what map_e may return for an operand: nothing (unchanged), a literal,
+    an arbitrary non-literal, a sum (for the (x+y)-x rule), or `other`'s own
+    sub-term objects"""
+    k = g.choose(["none", "const", "opaque", "sum"], name)
+    if k == "none":
+        return None
+    if k == "const":
+        return LoopIR.Const(g.int(name + "_c"), T.int, SRC)
+    if k == "opaque":
+        return opaque_expr(g, name, not_ctors=(LoopIR.Const, LoopIR.BinOp))
+    return LoopIR.BinOp("+", opaque_expr(g, name + "_a", not_ctors=(LoopIR.Const, LoopIR.BinOp)),
+                        opaque_expr(g, name + "_b", not_ctors=(LoopIR.Const, LoopIR.BinOp)), T.index, SRC)
+
+@cmb.inputs
+def _(g):
+    op = g.choose(ARITH, "op")
+    lhs0 = opaque_expr(g, "l0", not_ctors=(LoopIR.Const, LoopIR.BinOp))
+    if op in ("/", "%"):
+        rhs0 = LoopIR.Const(g.pos("d"), T.int, SRC)
+    else:
+        rhs0 = opaque_expr(g, "r0", not_ctors=(LoopIR.Const, LoopIR.BinOp))
+    e = LoopIR.BinOp(op, lhs0, rhs0, T.index, SRC)
+    new_l = g_operand(g, "nl")
+    if op in ("/", "%"):
+        new_r = None
+    else:
+        kinds = ["fresh"]
+        if isinstance(new_l, LoopIR.BinOp):
+            kinds += ["same_as_l.lhs", "same_as_l.rhs"]
+        kk = g.choose(kinds, "nr.kind")
+        new_r = g_operand(g, "nr") if kk == "fresh" else (new_l.lhs if kk == "same_as_l.lhs" else new_l.rhs)
+    g.ghost["map_e"] = {id(lhs0): new_l, id(rhs0): new_r}
+    return {"self": mk_simp(g), "e": e}
+
+@cmb.requires
+def _(a):
+    m = a.g.ghost["map_e"]
+    cs = []
+    for sub in (a.e.lhs, a.e.rhs):
+        r = m[id(sub)]
+        if r is not None:
+            cs.append(ev(r) == ev(sub))
+    return And(cs)
+
+@cmb.ensures("simplified binary operation has the same value")
+def _(a):
+    return ev(a.result) == ev(a.e)
+
+cmb.callee("DoSimplify.map_e", result=lambda g, a: g.ghost["map_e"][id(a.e)],
+           assumed=False, note="induction hypothesis: map_e returns None or an expression of equal value "
+                               "(the equal-value fact is the precondition above)")
+cmb.callee("DoSimplify.is_quotient_remainder",
+           result=lambda g, a: None if g.choose(["no", "yes"], "qr") == "no" else opaque_expr(g, "qr_n", not_ctors=()),
+           ensures=lambda a: True if a.result is None else ev(a.result) == ev(a.e),
+           assumed=False, note="contract of is_quotient_remainder (below)")
+
+
+# is_quotient_remainder: N % K + K * (N / K)  ->  N
+cqr = contract("C12", F, "DoSimplify.is_quotient_remainder")
+
+@cqr.inputs
+def _(g):
+    N = opaque_expr(g, "N", not_ctors=(LoopIR.Const, LoopIR.BinOp))
+    same = g.choose(["same_num", "other_num"], "num")
+    N2 = N if same == "same_num" else opaque_expr(g, "M", not_ctors=(LoopIR.Const, LoopIR.BinOp))
+    K = g.choose([2, 4], "K")
+    K2 = K if g.choose(["same_k", "other_k"], "k") == "same_k" else K + 1
+    K3 = K if g.choose(["same_k3", "other_k3"], "k3") == "same_k3" else K + 1
+    rem = LoopIR.BinOp("%", N, LoopIR.Const(K, T.int, SRC), T.index, SRC)
+    div = LoopIR.BinOp("/", N2, LoopIR.Const(K2, T.int, SRC), T.index, SRC)
+    kc = LoopIR.Const(K3, T.int, SRC)
+    quot = LoopIR.BinOp("*", kc, div, T.index, SRC) if g.choose(["k*d", "d*k"], "qo") == "k*d" \
+        else LoopIR.BinOp("*", div, kc, T.index, SRC)
+    form = g.choose(["rem+quot", "quot+rem", "minus"], "form")
+    if form == "rem+quot":
+        e = LoopIR.BinOp("+", rem, quot, T.index, SRC)
+    elif form == "quot+rem":
+        e = LoopIR.BinOp("+", quot, rem, T.index, SRC)
+    else:
+        e = LoopIR.BinOp("-", rem, quot, T.index, SRC)
+    return {"e": e}
+
+@cqr.ensures("returns N only if the expression equals N")
+def _(a):
+    return True if a.result is None else ev(a.result) == ev(a.e)
+
+cqr.note("sub-expressions are compared through str(); schematic leaves print alike only when "
+         "identical, so the case 'different expressions with identical printed text' (two distinct "
+         "symbols of the same name in one expression) is NOT covered: assumption, see DESIGN F2 family")
+ASSUMPTIONS = ["DoSimplify.is_quotient_remainder compares sub-expressions by printed text: two different "
+               "expressions with identical text (distinct symbols of equal name) are assumed not to occur "
+               "inside one index expression"]
+
+
+# ----------------------------------------------------------------------------
+# branch facts: add_fact / is_known_constant as a pair
+#
+# Property: a replacement is justified by an enclosing guard only if the
+# replaced expression denotes the guarded expression's value *at that program
+# point*.  Function-level consequences checked here:
+#  (1) after add_fact(E == c) [we are inside the guard: ev(E) == c], a lookup of
+#      any expression Q yields R only if ev(R) == ev(Q) - in particular not for
+#      a Q that mentions a *different symbol with the same name*;
+#  (2) a fact about a configuration field must not be served at all: the field
+#      may be written between the guard and the use (nothing in DoSimplify
+#      invalidates facts on a WriteConfig).
+
+_X1, _X2, _Y1 = Sym("x"), Sym("x"), Sym("y")
+
+def _mk_cfg():
+    from exo.core.configs import Config
+    from exo.core.LoopIR import UAST
+    return Config("CfgVerif", [("a", UAST.Index())], False)
+
+_CFG = None
+
+def _cfg():
+    global _CFG
+    if _CFG is None:
+        _CFG = _mk_cfg()
+    return _CFG
+
+def _fact_expr(kind, s):
+    rd = LoopIR.Read(s, [], T.index, SRC)
+    if kind == "read":
+        return rd
+    if kind == "plus1":
+        return LoopIR.BinOp("+", rd, LoopIR.Const(1, T.int, SRC), T.index, SRC)
+    if kind == "div4":
+        return LoopIR.BinOp("/", rd, LoopIR.Const(4, T.int, SRC), T.index, SRC)
+    if kind == "mod4":
+        return LoopIR.BinOp("%", rd, LoopIR.Const(4, T.int, SRC), T.index, SRC)
+    if kind == "config":
+        return LoopIR.ReadConfig(_cfg(), "a", T.index, SRC)
+    raise AssertionError(kind)
+
+cfa = contract("C12", F, "DoSimplify.add_fact")
+
+@cfa.inputs
+def _(g):
+    kind = g.choose(["read", "plus1", "div4", "config"], "fact.kind")
+    side = g.choose(["expr==c", "c==expr"], "side")
+    E = _fact_expr(kind, _X1)
+    c = LoopIR.Const(g.int("c"), T.int, SRC)
+    cond = LoopIR.BinOp("==", E, c, T.bool, SRC) if side == "expr==c" else LoopIR.BinOp("==", c, E, T.bool, SRC)
+    qkinds = [kind] + (["mod4"] if kind == "div4" else [])
+    qk = g.choose(qkinds, "query.kind")
+    qs = g.choose([_X1, _X2, _Y1], "query.sym")
+    return {"self": mk_simp(g), "cond": cond, "__ghost__": {"E": E, "c": c, "query": _fact_expr(qk, qs), "kind": qk}}
+
+def ev_q(e):
+    if isinstance(e, LoopIR.ReadConfig):
+        return S.cur().ghost.setdefault("cfgval", S.cur().fresh_int("cfg_a"))
+    if isinstance(e, LoopIR.BinOp) and isinstance(e.lhs, LoopIR.ReadConfig):
+        raise AssertionError
+    return ev(e)
+
+@cfa.requires
+def _(a):
+    return ev_q(a.ghost.E) == a.ghost.c.val      # we are inside the guard
+
+cfa.entry = lambda g, it, fn, a: (it.call(fn, [a.self, a.cond]),
+                                  it.call(LS.DoSimplify.is_known_constant, [a.self, a.ghost.query]))[1]
+cfa.native_entry = lambda g, fn, a: (fn(a.self, a.cond),
+                                     LS.DoSimplify.is_known_constant(a.self, a.ghost.query))[1]
+
+@cfa.ensures("a served fact has the value of the queried expression")
+def _(a):
+    if a.result is None:
+        return True
+    return ev_q(a.result) == ev_q(a.ghost.query)
+
+@cfa.ensures("no fact is served for a configuration read (it may have been written since the guard)")
+def _(a):
+    return a.result is None if a.ghost.kind == "config" else True
